@@ -98,7 +98,9 @@ func runC03(x *X) {
 
 	shapes := []func() *Grid{
 		func() *Grid { return &Grid{Rows: []GridRow{{Cells: make([]string, 1)}}} },
-		func() *Grid { return &Grid{HasHeader: true, Header: make([]string, 1), Rows: []GridRow{{Cells: make([]string, 1)}}} },
+		func() *Grid {
+			return &Grid{HasHeader: true, Header: make([]string, 1), Rows: []GridRow{{Cells: make([]string, 1)}}}
+		},
 		func() *Grid { return &Grid{Rows: []GridRow{{Cells: make([]string, 2)}, {Cells: make([]string, 2)}}} },
 		func() *Grid {
 			return &Grid{HasHeader: true, Header: make([]string, 2), Rows: []GridRow{{Cells: make([]string, 2)}}}
@@ -106,8 +108,12 @@ func runC03(x *X) {
 		func() *Grid {
 			return &Grid{HasHeader: true, Header: make([]string, 1), Rows: []GridRow{{Cells: make([]string, 2)}, {Sep: true}, {Cells: make([]string, 1)}}}
 		},
-		func() *Grid { return &Grid{Rows: []GridRow{{Cells: make([]string, 3)}, {Cells: make([]string, 0)}, {Cells: make([]string, 1)}}} },
-		func() *Grid { return &Grid{HasHeader: true, Header: make([]string, 3), Rows: []GridRow{{Sep: true}, {Cells: make([]string, 1)}}} },
+		func() *Grid {
+			return &Grid{Rows: []GridRow{{Cells: make([]string, 3)}, {Cells: make([]string, 0)}, {Cells: make([]string, 1)}}}
+		},
+		func() *Grid {
+			return &Grid{HasHeader: true, Header: make([]string, 3), Rows: []GridRow{{Sep: true}, {Cells: make([]string, 1)}}}
+		},
 	}
 	x.Explore("texts", ExploreOpts{ShardDepth: 3, Bound: fmt.Sprintf("%d shapes x all assignments of a %d-atom pool to <=4 cells x %d decorations", len(shapes), len(pool), len(tdecors))}, func(c *Chooser) {
 		g := shapes[c.Choose(len(shapes))]()
